@@ -328,6 +328,8 @@ def call_impl(case, hierarchy=False, ci_override=None):
         kw['hierarchy'] = hierarchy
     _verif.reset()
     ci, q = call(getattr(bct, fn), W, gamma=g, _t=20.0, **kw)
+    tie_variants(case, 'input_variant')   # input-representation layer: the clauses of this case are judged later (batched model run), so
+    #                                       the representation this call ran on is tied to the case (pub() keeps the key)
     levels, cur = [], []
     for tag, d in _verif.LOG:
         if tag == 'move':
@@ -389,6 +391,7 @@ def probtune_stream(case, p):
         kw['ci'] = np.array(case['ci'], dtype=int)
     _verif.reset()
     ci, q = call(bct.modularity_probtune_und_sign, W, gamma=float(case['_g']), _t=20.0, **kw)
+    tie_variants(case, 'input_variant')
     moves = [d for tag, d in _verif.LOG if tag == 'move']
     _verif.reset()
     steps = [[int(d['u']), bool(d.get('random')), int(d['mb'])] for d in moves]
